@@ -9,6 +9,7 @@ NEXT Next
 CHECK_DEADLOCK FALSE
 INVARIANTS
   TypeOK
+  UnreadTouchesNothing
   PredictionMatchesMachine
   AbortCharacterised
   Contained
